@@ -46,6 +46,8 @@ def Int_ToLegacyDec (a : Int) : Dec := Dec.ofInt a
 
 /-! ### int64 (Go's machine arithmetic wraps) -/
 def I64_wrap (x : Int) : Int := (x + 9223372036854775808).emod 18446744073709551616 - 9223372036854775808
+/-- `uint64(x)` of an int64 -/
+def U64_ofI64 (x : Int) : Nat := (x.emod 18446744073709551616).toNat
 def I64_Add (a b : Int) : Int := I64_wrap (a + b)
 def I64_Sub (a b : Int) : Int := I64_wrap (a - b)
 
